@@ -388,6 +388,25 @@ def wl_ecmult(ctx, config, scale):
             ctx.count("ecmult_multi_refused"); ctx.check(algo in (1, 2), "ecmult_multi:refused", "algo=%d scratch=%d n=%d" % (algo, ss, k), config); continue
         ctx.check(pdec(r.b(1)) == want, "ecmult_multi:wrong_result", "algo=%d scratch=%d n=%d" % (algo, ss, k), config)
 
+def wl_scratch_sweep(ctx, config, scale):
+    """ecmult_multi_var with EVERY scratch size on a 4-byte grid from 0 past the size that holds all points (batch-size arithmetic:
+    points per batch, array alignment, fallback to the scratch-less algorithm): always the exact result, never a refusal"""
+    rng = ctx.rng
+    for k in (3, 6) if ctx.quick else (2, 3, 5, 6, 7, 9, 13):
+        pts = [rpoint(rng, allow_inf=False) for _ in range(k)]; scs = [pools.scalar(rng, 0.3) % n for _ in range(k)]; g = pools.scalar(rng, 0.3) % n
+        want = mulG(g)
+        for x, P in zip(scs, pts): want = add(want, mul(x, P))
+        sb = b''.join(b32(x) for x in scs); pb = b''.join(pext(P) for P in pts)
+        sizes = list(range(0, (k + 2) * 1800, 4))
+        per = (len(sizes) + ctx.nshards - 1) // ctx.nshards
+        mine = sizes[ctx.shard * per:(ctx.shard + 1) * per]
+        if scale < 1: mine = mine[::3]
+        for ss in mine:
+            r = ctx.call("ecmult_multi", 0, ss, sb, pb, k, b32(g), config=config)
+            if r is None: break
+            ctx.ev("ecmult_multi", "scratch_sweep:n%d" % k, True, k, ss, sb[:32])
+            if not ctx.check(r.ret == 1 and pdec(r.b(1)) == want, "ecmult_multi:scratch_sweep:%s" % ("wrong_result" if r.ret else "refused"), "n=%d scratch=%d %r" % (k, ss, r), config): break
+
 TAGS = ["BIP0340/nonce", "BIP0340/aux", "BIP0340/challenge", "s2c/ecdsa/point", "s2c/ecdsa/data", "Bulletproofs_pp/v0/commitment", "ECDSAadaptor/non", "ECDSAadaptor/aux", "DLEQ",
         "HalfAgg/randomizer", "MuSig/aux", "MuSig/nonce", "MuSig/noncecoef", "KeyAgg_list", "KeyAgg_coefficient", "secp256k1_ellswift_encode", "secp256k1_ellswift_create",
         "bip324_ellswift_xonly_ecdh", "some/other/tag"]
@@ -443,4 +462,4 @@ def run(ctx):
     for i, config in enumerate(ctx.configs):
         scale = 1.0 if i == 0 else (0.35 if ctx.quick else 0.5)
         wl_field(ctx, config, scale); wl_scalar(ctx, config, scale); wl_reduce(ctx, config, scale); wl_int128(ctx, config, scale)
-        wl_group(ctx, config, scale); wl_ecmult(ctx, config, scale); wl_hash(ctx, config, scale)
+        wl_group(ctx, config, scale); wl_ecmult(ctx, config, scale); wl_scratch_sweep(ctx, config, scale); wl_hash(ctx, config, scale)
